@@ -87,27 +87,50 @@ func fixOrder(rel string) func() string {
 	return func() string {
 		fd := mustFunc(rel, "indirectIssuanceChainService.FixLogLeaf")
 		var order []string
-		for _, s := range fd.Body.List { // top level only: the nested declarations are chains, not layouts
-			ds, ok := s.(*ast.DeclStmt)
-			if !ok {
-				continue
-			}
-			gd := ds.Decl.(*ast.GenDecl)
-			for _, sp := range gd.Specs {
-				vs, ok := sp.(*ast.ValueSpec)
-				if ok && vs.Type != nil && strings.HasPrefix(src(vs.Type), "ct.") {
-					order = append(order, strings.TrimPrefix(src(vs.Type), "ct."))
+		n := 0
+		// top level only (the nested declarations are chains, not layouts), in source order; a same-file helper that is handed
+		// leaf.ExtraData (`if …, ok := decodeX(leaf.ExtraData); ok {`) contributes its own declarations / attempts at that point.
+		// Each declaration must be followed by `if rest, err := tls.Unmarshal(<data>, &v); err == nil && len(rest) == 0`
+		var scan func(list []ast.Stmt, data string, depth int)
+		scan = func(list []ast.Stmt, data string, depth int) {
+			for _, st := range list {
+				switch x := st.(type) {
+				case *ast.DeclStmt:
+					for _, sp := range x.Decl.(*ast.GenDecl).Specs {
+						vs, ok := sp.(*ast.ValueSpec)
+						if ok && vs.Type != nil && strings.HasPrefix(src(vs.Type), "ct.") {
+							order = append(order, strings.TrimPrefix(src(vs.Type), "ct."))
+						}
+					}
+				case *ast.IfStmt:
+					if x.Init == nil {
+						continue
+					}
+					if strings.Contains(src(x.Init), "tls.Unmarshal("+data+",") && src(x.Cond) == "err == nil && len(rest) == 0" {
+						n++
+						continue
+					}
+					as, ok := x.Init.(*ast.AssignStmt)
+					if !ok || len(as.Rhs) != 1 || depth > 0 {
+						continue
+					}
+					c, ok := as.Rhs[0].(*ast.CallExpr)
+					if !ok {
+						continue
+					}
+					id, ok := c.Fun.(*ast.Ident)
+					if !ok || len(c.Args) != 1 || src(c.Args[0]) != data {
+						continue
+					}
+					h := findFunc(parseFile(rp(rel)), id.Name)
+					if h == nil || h.Recv != nil || h.Type.Params.NumFields() != 1 || len(h.Type.Params.List[0].Names) != 1 {
+						continue
+					}
+					scan(h.Body.List, h.Type.Params.List[0].Names[0].Name, depth+1)
 				}
 			}
 		}
-		// each declaration must be followed by `if rest, err := tls.Unmarshal(leaf.ExtraData, &v); err == nil && len(rest) == 0`
-		n := 0
-		for _, s := range fd.Body.List {
-			is, ok := s.(*ast.IfStmt)
-			if ok && is.Init != nil && strings.Contains(src(is.Init), "tls.Unmarshal(leaf.ExtraData") && src(is.Cond) == "err == nil && len(rest) == 0" {
-				n++
-			}
-		}
+		scan(fd.Body.List, "leaf.ExtraData", 0)
 		if n != len(order) {
 			panic(bail{fmt.Sprintf("%s: FixLogLeaf: %d layout declarations but %d complete-parse attempts", rel, len(order), n)})
 		}
@@ -130,21 +153,27 @@ func hashCheckFlag(rel string) func() string {
 		fd := mustFunc(rel, "indirectIssuanceChainService.getByHash")
 		params := fd.Type.Params.List
 		hashVar := params[len(params)-1].Names[len(params[len(params)-1].Names)-1].Name
-		chainVar := ""
+		// the chain variables: whatever receives the result of ….cache.Get / ….storage.FindByKey (one variable or two)
+		chainVars := map[string]bool{}
 		ast.Inspect(fd.Body, func(n ast.Node) bool {
-			if as, ok := n.(*ast.AssignStmt); ok && chainVar == "" && len(as.Rhs) == 1 && strings.HasSuffix(callName(as.Rhs[0]), ".cache.Get") {
-				if id, ok := as.Lhs[0].(*ast.Ident); ok {
-					chainVar = id.Name
+			if as, ok := n.(*ast.AssignStmt); ok && len(as.Rhs) == 1 {
+				if cn := callName(as.Rhs[0]); strings.HasSuffix(cn, ".cache.Get") || strings.HasSuffix(cn, ".storage.FindByKey") {
+					if id, ok := as.Lhs[0].(*ast.Ident); ok {
+						chainVars[id.Name] = true
+					}
 				}
 			}
 			return true
 		})
-		if chainVar == "" {
-			panic(bail{rel + ": getByHash no longer reads the cache with ….cache.Get"})
+		if len(chainVars) == 0 {
+			panic(bail{rel + ": getByHash no longer reads ….cache.Get / ….storage.FindByKey into a variable"})
 		}
-		isCheckCall := func(e ast.Expr) bool {
+		checkedVar := func(e ast.Expr) string {
 			c, ok := e.(*ast.CallExpr)
-			return ok && src(c.Fun) == "checkIssuanceChainHash" && len(c.Args) == 2 && src(c.Args[0]) == hashVar && src(c.Args[1]) == chainVar
+			if ok && src(c.Fun) == "checkIssuanceChainHash" && len(c.Args) == 2 && src(c.Args[0]) == hashVar && chainVars[src(c.Args[1])] {
+				return src(c.Args[1])
+			}
+			return ""
 		}
 		returnsErr := func(b *ast.BlockStmt) bool {
 			if len(b.List) == 0 {
@@ -168,69 +197,101 @@ func hashCheckFlag(rel string) func() string {
 				uncovered++
 			}
 		}
-		var walk func(list []ast.Stmt, checked bool) bool
-		walk = func(list []ast.Stmt, checked bool) bool {
-			pendingErrCheck := false // `err = checkIssuanceChainHash(...)` seen, waiting for `if err != nil { return }`
+		type cset map[string]bool
+		cp := func(c cset) cset {
+			o := cset{}
+			for k, v := range c {
+				o[k] = v
+			}
+			return o
+		}
+		meet := func(a, b cset) cset {
+			o := cset{}
+			for k := range a {
+				if b[k] {
+					o[k] = true
+				}
+			}
+			return o
+		}
+		var walk func(list []ast.Stmt, checked cset) cset
+		walk = func(list []ast.Stmt, checked cset) cset {
+			pending := "" // `err = checkIssuanceChainHash(hash, v)` seen, waiting for `if err != nil { return }`
 			for _, st := range list {
 				switch x := st.(type) {
 				case *ast.AssignStmt:
-					if len(x.Rhs) == 1 && isCheckCall(x.Rhs[0]) {
-						pendingErrCheck = true
+					if len(x.Rhs) == 1 && checkedVar(x.Rhs[0]) != "" {
+						pending = checkedVar(x.Rhs[0])
 						continue
 					}
 					for _, l := range x.Lhs {
-						if src(l) == chainVar {
-							checked = false
+						if chainVars[src(l)] {
+							delete(checked, src(l))
 						}
 					}
 				case *ast.IfStmt:
-					if as, ok := x.Init.(*ast.AssignStmt); ok && len(as.Rhs) == 1 && isCheckCall(as.Rhs[0]) && src(x.Cond) == "err != nil" && returnsErr(x.Body) && x.Else == nil {
-						checked = true
+					if as, ok := x.Init.(*ast.AssignStmt); ok && len(as.Rhs) == 1 && checkedVar(as.Rhs[0]) != "" && src(x.Cond) == "err != nil" && returnsErr(x.Body) && x.Else == nil {
+						checked[checkedVar(as.Rhs[0])] = true
 						checks++
 						continue
 					}
-					if pendingErrCheck && x.Init == nil && src(x.Cond) == "err != nil" && returnsErr(x.Body) && x.Else == nil {
-						checked, pendingErrCheck = true, false
+					if pending != "" && x.Init == nil && src(x.Cond) == "err != nil" && returnsErr(x.Body) && x.Else == nil {
+						checked[pending] = true
+						pending = ""
 						checks++
 						continue
 					}
-					thenState := walk(x.Body.List, checked)
-					out := []bool{}
+					var outs []cset
+					thenState := walk(x.Body.List, cp(checked))
 					if !terminates(x.Body.List) {
-						out = append(out, thenState)
+						outs = append(outs, thenState)
 					}
 					switch e := x.Else.(type) {
 					case nil:
-						out = append(out, checked)
+						outs = append(outs, cp(checked))
 					case *ast.BlockStmt:
-						es := walk(e.List, checked)
+						es := walk(e.List, cp(checked))
 						if !terminates(e.List) {
-							out = append(out, es)
+							outs = append(outs, es)
 						}
 					case *ast.IfStmt:
-						es := walk([]ast.Stmt{e}, checked)
-						out = append(out, es)
+						outs = append(outs, walk([]ast.Stmt{e}, cp(checked)))
 					}
-					checked = len(out) > 0
-					for _, o := range out {
-						checked = checked && o
+					if len(outs) == 0 {
+						checked = cset{}
+					} else {
+						checked = outs[0]
+						for _, o := range outs[1:] {
+							checked = meet(checked, o)
+						}
 					}
 				case *ast.BlockStmt:
 					checked = walk(x.List, checked)
 				case *ast.ReturnStmt:
-					if len(x.Results) > 0 && src(x.Results[0]) == chainVar {
-						use(checked)
+					if len(x.Results) > 0 && chainVars[src(x.Results[0])] {
+						use(checked[src(x.Results[0])])
 					}
 				case *ast.GoStmt:
-					use(checked)
+					// the detached cache fill: every chain variable it mentions must have passed the check
+					ok, any := true, false
+					ast.Inspect(x, func(n ast.Node) bool {
+						if id, isId := n.(*ast.Ident); isId && chainVars[id.Name] {
+							any = true
+							if !checked[id.Name] {
+								ok = false
+							}
+						}
+						return true
+					})
+					use(ok && any)
 				case *ast.SwitchStmt, *ast.ForStmt, *ast.RangeStmt, *ast.SelectStmt, *ast.TypeSwitchStmt, *ast.LabeledStmt, *ast.BranchStmt:
 					failf(st, "getByHash left the analysed subset (%T)", st)
 				}
-				pendingErrCheck = false
+				pending = ""
 			}
 			return checked
 		}
-		walk(fd.Body.List, false)
+		walk(fd.Body.List, cset{})
 		flag := false
 		switch {
 		case checks == 0:
@@ -266,7 +327,7 @@ func hashCheckFlag(rel string) func() string {
 		default:
 			panic(bail{fmt.Sprintf("%s: getByHash checks the hash on %d of its %d ways of handing out / caching a chain", rel, covered, covered+uncovered)})
 		}
-		return fmt.Sprintf("/-- generated from %s func getByHash (path analysis): every `return <chain>, …` and the detached cache fill are reached only\nafter `checkIssuanceChainHash(<hash>, <chain>)` succeeded on the current bytes (helper: `!bytes.Equal(issuanceChainHash(chain), hash)` ⇒ error) -/\ndef getByHashVerifiesHash : Bool := %v\n", rel, flag)
+		return fmt.Sprintf("/-- generated from %s func getByHash (path analysis): every `return <chain>, …` and the detached cache fill are reached only\nafter `checkIssuanceChainHash(<hash>, <chain>)` succeeded on the bytes handed out (helper: `!bytes.Equal(issuanceChainHash(chain), hash)` ⇒ error) -/\ndef getByHashVerifiesHash : Bool := %v\n", rel, flag)
 	}
 }
 
@@ -322,6 +383,8 @@ func buildCheckFlag(rel string) func() string {
 		}
 		leaf, rest := rawVar+"[0]", rawVar+"[1:]"
 		checkAt, addAt := -1, -1
+		var helper *ast.FuncDecl
+		var helperAlias map[string]string
 		for i, st := range fd.Body.List {
 			if is, ok := st.(*ast.IfStmt); ok && is.Init != nil {
 				if as, ok := is.Init.(*ast.AssignStmt); ok && len(as.Rhs) == 1 && callName(as.Rhs[0]) == "util.ExtraDataForChain" {
@@ -340,6 +403,39 @@ func buildCheckFlag(rel string) func() string {
 			if addAt < 0 && strings.Contains(src(st), "s.add(ctx, ") {
 				addAt = i
 			}
+			// the storing step may sit in a helper method of the same service (one level): `… := s.helper(ctx, rest)`
+			if addAt < 0 {
+				ast.Inspect(st, func(n ast.Node) bool {
+					c, ok := n.(*ast.CallExpr)
+					if !ok || addAt >= 0 {
+						return true
+					}
+					sel, ok := c.Fun.(*ast.SelectorExpr)
+					if !ok || src(sel.X) != "s" || sel.Sel.Name == "add" {
+						return true
+					}
+					h := findFunc(parseFile(rp(rel)), "indirectIssuanceChainService."+sel.Sel.Name)
+					if h == nil || !strings.Contains(src(h.Body), "s.add(ctx, ") {
+						return true
+					}
+					var pn []string
+					for _, f := range h.Type.Params.List {
+						for _, nm := range f.Names {
+							pn = append(pn, nm.Name)
+						}
+					}
+					if len(pn) != len(c.Args) {
+						return true
+					}
+					addAt = i
+					helper = h
+					helperAlias = map[string]string{}
+					for k, a := range c.Args {
+						helperAlias[pn[k]] = resolve(a)
+					}
+					return true
+				})
+			}
 		}
 		if addAt < 0 {
 			panic(bail{rel + ": indirect BuildLogLeaf no longer calls s.add"})
@@ -349,23 +445,35 @@ func buildCheckFlag(rel string) func() string {
 		}
 		// what is stored / built later is the same leaf and rest
 		same := 0
-		ast.Inspect(fd.Body, func(n ast.Node) bool {
-			c, ok := n.(*ast.CallExpr)
-			if !ok {
+		count := func(body *ast.BlockStmt, res func(ast.Expr) string) {
+			ast.Inspect(body, func(n ast.Node) bool {
+				c, ok := n.(*ast.CallExpr)
+				if !ok {
+					return true
+				}
+				switch src(c.Fun) {
+				case "asn1.Marshal":
+					if len(c.Args) == 1 && res(c.Args[0]) == rest {
+						same++
+					}
+				case "util.BuildLogLeafWithChainHash":
+					if len(c.Args) == 6 && res(c.Args[3]) == leaf {
+						same++
+					}
+				}
 				return true
-			}
-			switch src(c.Fun) {
-			case "asn1.Marshal":
-				if len(c.Args) == 1 && resolve(c.Args[0]) == rest {
-					same++
+			})
+		}
+		count(fd.Body, resolve)
+		if helper != nil {
+			count(helper.Body, func(e ast.Expr) string {
+				t := strings.ReplaceAll(src(e), " ", "")
+				if v, ok := helperAlias[t]; ok {
+					return v
 				}
-			case "util.BuildLogLeafWithChainHash":
-				if len(c.Args) == 6 && resolve(c.Args[3]) == leaf {
-					same++
-				}
-			}
-			return true
-		})
+				return t
+			})
+		}
 		if same != 2 {
 			panic(bail{rel + ": indirect BuildLogLeaf does not store asn1.Marshal(rest of the chain) / build the leaf from element 0"})
 		}
@@ -448,10 +556,9 @@ func init() {
 			"(cacheFails cacheHit findFails hashBad : Bool)", "Nat × Bool × Bool", "let filled_ := false\n  ", "(0, false, filled_)",
 			Spec{Kind: "u64", Lazy: true, Inline: false, Ret: "statusstate", StateVars: []string{"filled_"}, Ignore: []string{"klog."},
 				Status:   map[string]int{"nil": 0, "*": 1},
-				ErrCalls: map[string]string{"s.cache.Get": "cacheFails", "s.storage.FindByKey": "findFails"},
-				InitCond: map[string]string{"err := checkIssuanceChainHash(hash, chain) ; err != nil": "hashBad"},
+				ErrCalls: map[string]string{"s.cache.Get": "cacheFails", "s.storage.FindByKey": "findFails", "checkIssuanceChainHash": "hashBad"},
 				AppendEffect: map[string]string{"stmt:go": "filled_ := true"},
-				Repl:         map[string]string{"chain != nil": "cacheHit"}})},
+				Repl:         map[string]string{"chain != nil": "cacheHit", "chain == nil": "(!cacheHit)", "cached != nil": "cacheHit", "cached == nil": "(!cacheHit)"}})},
 		// add: (what is handed back: 0 nothing / 1 the hash, is-error, "storage.Add succeeded", "cache fill started")
 		{"addBody", handlerKernel(sv, "indirectIssuanceChainService.add", "addBody",
 			"(cacheFails cacheHit addFails : Bool)", "Nat × Bool × Bool × Bool", "let stored_ := false\n  let filled_ := false\n  ", "(0, false, stored_, filled_)",
@@ -466,7 +573,8 @@ func init() {
 		{"fixLogLeafBody", handlerKernel(sv, "indirectIssuanceChainService.FixLogLeaf", "fixLogLeafBody",
 			"(leafNil isPCEH isCCH isPCE isCC hashNonEmpty lookupFails derBad derTrailing encFails : Bool)", "Bool × Nat × Bool", "let form_ := (0 : Nat)\n  let assigned_ := false\n  ", "(true, form_, assigned_)",
 			Spec{Kind: "u64", Lazy: true, Inline: true, Ret: "errboolstate", StateVars: []string{"form_", "assigned_"}, Ignore: []string{"klog."},
-				ErrCalls: map[string]string{"s.getByHash": "lookupFails", "asn1.Unmarshal": "derBad", "tls.Marshal(precertChain": "encFails|form_ := (1 : Nat)", "tls.Marshal(certChain": "encFails|form_ := (2 : Nat)"},
+				ErrCalls: map[string]string{"s.getByHash": "lookupFails", "asn1.Unmarshal": "derBad", "tls.Marshal(precertChain": "encFails|form_ := (1 : Nat)", "tls.Marshal(certChain": "encFails|form_ := (2 : Nat)",
+					"tls.Marshal(ct.PrecertChainEntry{": "encFails|form_ := (1 : Nat)", "tls.Marshal(ct.CertificateChain{": "encFails|form_ := (2 : Nat)"},
 				InitCond: map[string]string{
 					"rest, err := tls.Unmarshal(leaf.ExtraData, &precertChainHash) ; err == nil && len(rest) == 0": "isPCEH",
 					"rest, err := tls.Unmarshal(leaf.ExtraData, &certChainHash) ; err == nil && len(rest) == 0":    "isCCH",
@@ -481,7 +589,7 @@ func init() {
 		// the external-storage BuildLogLeaf: (is-error, "the chain was handed to add")
 		{"indirectBuildBody", handlerKernel(sv, "indirectIssuanceChainService.BuildLogLeaf", "indirectBuildBody",
 			"(encodingFails derFails addFails leafFails : Bool)", "Nat × Bool × Bool", "let added_ := false\n  ", "(0, false, added_)",
-			Spec{Kind: "u64", Lazy: true, Canon: true, Ret: "statusstate", StateVars: []string{"added_"}, Ignore: []string{"klog."},
+			Spec{Kind: "u64", Lazy: true, Canon: true, Inline: true, Ret: "statusstate", StateVars: []string{"added_"}, Ignore: []string{"klog."},
 				Status: map[string]int{"nil": 0, "*": 1},
 				ErrCalls: map[string]string{"asn1.Marshal": "derFails", "s.add": "addFails|added_ := (!addFails)", "util.BuildLogLeafWithChainHash": "leafFails"},
 				InitCondByCall: map[string]string{".ExtraDataForChain": "encodingFails"}})},
@@ -539,21 +647,74 @@ func layoutChoiceFact(rel string) func() string {
 		hp, hn := pick("ExtraDataForChainHash")
 		fd := mustFunc(rel, "buildLogLeaf")
 		okShape := false
-		for _, st := range findStmts(fd, func(s ast.Stmt) bool { is, ok := s.(*ast.IfStmt); return ok && is.Init == nil }) {
-			is := st.(*ast.IfStmt)
-			c := norm(src(is.Cond))
-			if c != "chainHash==nil" && c != "chainHash!=nil" {
-				continue
-			}
-			eb, ok := is.Else.(*ast.BlockStmt)
+		// the choice is made in buildLogLeaf itself or in a same-file helper that is handed chainHash (one level)
+		type cand struct {
+			fd *ast.FuncDecl
+			hv string
+		}
+		cands := []cand{{fd, "chainHash"}}
+		ast.Inspect(fd.Body, func(n ast.Node) bool {
+			c, ok := n.(*ast.CallExpr)
 			if !ok {
-				continue
+				return true
 			}
-			a, b := src(is.Body), src(eb)
-			if c == "chainHash!=nil" {
-				a, b = b, a
+			id, ok := c.Fun.(*ast.Ident)
+			if !ok {
+				return true
 			}
-			okShape = strings.Contains(a, "ExtraDataForChain(") && strings.Contains(b, "ExtraDataForChainHash(")
+			h := findFunc(parseFile(rp(rel)), id.Name)
+			if h == nil || h.Recv != nil {
+				return true
+			}
+			var pn []string
+			for _, f := range h.Type.Params.List {
+				for _, nm := range f.Names {
+					pn = append(pn, nm.Name)
+				}
+			}
+			for k, a := range c.Args {
+				if src(a) == "chainHash" && k < len(pn) && len(pn) == len(c.Args) {
+					cands = append(cands, cand{h, pn[k]})
+				}
+			}
+			return true
+		})
+		for _, cd := range cands {
+			var visit func(list []ast.Stmt)
+			visit = func(list []ast.Stmt) {
+				for i, st := range list {
+					is, ok := st.(*ast.IfStmt)
+					if !ok || is.Init != nil {
+						continue
+					}
+					c := norm(src(is.Cond))
+					if c != cd.hv+"==nil" && c != cd.hv+"!=nil" {
+						visit(is.Body.List)
+						continue
+					}
+					var a, b string
+					if eb, ok := is.Else.(*ast.BlockStmt); ok {
+						a, b = src(is.Body), src(eb)
+					} else if is.Else == nil && len(is.Body.List) > 0 {
+						if _, ret := is.Body.List[len(is.Body.List)-1].(*ast.ReturnStmt); !ret {
+							continue
+						}
+						a = src(is.Body)
+						for _, r := range list[i+1:] {
+							b += src(r) + "\n"
+						}
+					} else {
+						continue
+					}
+					if c == cd.hv+"!=nil" {
+						a, b = b, a
+					}
+					if strings.Contains(a, "ExtraDataForChain(") && !strings.Contains(a, "ExtraDataForChainHash(") && strings.Contains(b, "ExtraDataForChainHash(") && !strings.Contains(b, "ExtraDataForChain(") {
+						okShape = true
+					}
+				}
+			}
+			visit(cd.fd.Body.List)
 		}
 		if !okShape {
 			panic(bail{rel + ": buildLogLeaf no longer chooses ExtraDataForChain for a nil chainHash and ExtraDataForChainHash otherwise"})
